@@ -10,8 +10,8 @@ from props.c12 import shape
 ID = "C13"
 SECTIONS = ["units"]
 LEAN_MODULES = ["QExPy.Props.C13"]
-THEOREMS = ["QExPy.C13_separator_tie", "QExPy.C13_roundtrip_partial",
-            "QExPy.C13_printed_forms_accepted"]
+THEOREMS = ["QExPy.C13_separator_tie", "QExPy.C13_roundtrip", "QExPy.C13_assign_twice",
+            "QExPy.C13_roundtrip_partial", "QExPy.C13_printed_forms_accepted"]
 RULE = ("exponent maps over 1-4 symbols (every order), integer exponents in [-4,4] without 0 and "
         "the rational exponents that sqrt and the constant powers 1/2, 1/3, 2/3, 3/2 produce, in "
         "both unit styles; the quantity carrying the map is built through real arithmetic (unit "
@@ -26,7 +26,8 @@ ASSUMPTIONS = ["exponents with denominator <= 10 (Fraction.limit_denominator(10)
                "no compound-unit definitions active (those are C18)"]
 TRUSTED = ["modelled not verified: str.format, Fraction.limit_denominator, numpy object arrays"]
 LEVEL_TEXT = "proof"
-LEVEL_NOTE = "round trip proved for the Lean printer/parser; tied to the code by the differential run"
+LEVEL_NOTE = ("round trip proved for the Lean printer/parser for all exponent maps (any size, any "
+              "non-zero rational exponents, both styles); tied to the code by the differential run")
 TECHNIQUE = "Lean 4 theorems over an exact model of printer and parser"
 
 RATS = [F(1, 2), F(3, 2), F(-1, 2), F(-3, 2), F(1, 3), F(2, 3), F(-1, 3), F(4, 3), F(5, 2), F(-2, 3)]
